@@ -186,4 +186,11 @@ pub broadcast proof fn axiom_range_is_empty_usize(r: &Range<usize>)
     ensures #[trigger] range_is_empty_spec(r) == !(r.start < r.end)
 { admit(); }
 
+
+// ASSUME(A-W4b): spec-attachment wrapper for the std `debug_assert*!` macros (rule DA of the extractor): the macro panics (debug builds)
+// unless its condition holds, so "no panic" is the precondition `cond`; in release builds the macro is empty
+#[verifier::external_body]
+pub fn debug_assert_holds(cond: bool)
+    requires cond
+{ debug_assert!(cond); }
 } // verus!
